@@ -48,7 +48,7 @@ def generate_ops(rng, cfg, spec, tier) -> list[dict]:
     def query(tgt):
         nm = rmodes if tgt == "r" else n_modes
         q = models.draw_queries(rng, spec, cfg["fits"][cur], cfg["new"][cur], nm, k=1, rotator=(tgt == "r"),
-                                with_input=not dataless[tgt], serde=False)[0]
+                                with_input=False, serde=False)[0]
         return {"op": "query", "target": tgt, "q": q}
 
     # bias: restart right after fit
@@ -161,7 +161,7 @@ def execute(cfg: dict, *, stop_at_first=True, trace=False) -> RunResult:
         prng = seeds.stream(seed, f"probe/{op['id']}/{tgt}")
         nm = int(cfg["rot_params"]["n_modes"]) if tgt == "r" else int(cfg["params"]["n_modes"])
         qs = models.draw_queries(prng, spec, cfg["fits"][st["fit"]], cfg["new"][st["fit"]], nm, k=k,
-                                 rotator=(tgt == "r"), with_input=not st[f"dataless_{tgt}"], serde=False)
+                                 rotator=(tgt == "r"), with_input=False, serde=False)
         for q in qs:
             if res.violations:
                 return
